@@ -7,6 +7,9 @@ From TS Require Proofs.C09Common Proofs.C09Recon Proofs.C09Refs Proofs.C09_Kotli
 From TS Require Proofs.C09_TypeScript Proofs.C09_Scala Proofs.C09_Python Proofs.C09_Swift Proofs.C09_Go Proofs.GoAcronyms Proofs.C09_GoAcr.
 From TS Require Import Model.Lang.Common Model.Collect Model.MultiFile Spec.C09MultiSpec.
 From TS Require Spec.C14Spec Proofs.C14Main Proofs.C14Front Proofs.C14Witness Proofs.C09Multi Proofs.C09MultiWitness Proofs.C09MultiTS Proofs.C09MultiC14.
+From TS Require Import Spec.C09MultiLangSpec.
+From TS Require Spec.C14KotlinSpec Proofs.C12MultiStateless Proofs.C09MultiLang Proofs.C09MultiKotlin Proofs.C09MultiKotlinC14 Proofs.C09MultiLangWitness.
+From TS Require Proofs.C12MultiSwift Proofs.C12Multi Proofs.C12MultiGo Proofs.C09MultiSwift Proofs.C09MultiScala Proofs.C09MultiPython Proofs.C09MultiGo.
 Import ListNotations.
 
 (* the program the back ends receive in single-file mode is Proofs.C09Recon.c09_reconciled of the parsed one *)
@@ -652,3 +655,339 @@ Theorem C09_multi_TypeScript_spelled_and_imported :
           Spec.C14Spec.rv_generated_name v = c9m_emitted_name arrivals (Spec.C14Spec.rv_from v) (Spec.C14Spec.rv_name v))).
 Proof. exact Proofs.C09MultiC14.c9m_ts_spelled_and_imported. Qed.
 Print Assumptions C09_multi_TypeScript_spelled_and_imported.
+
+
+(* ================================================================ FOLDER MODE, the other languages (Spec/C09MultiLangSpec.v)
+
+   Vocabulary on top of Spec/C09MultiSpec.v.
+   c9m_entities ws b          the things the file of crate b defines: one per struct / enum / alias of b's source files, one
+                              <Enum><Variant>Inner helper per struct variant
+   c9m_def_name L pfx e       the name the tool declares e under: prefix ++ (generated name | Rust name: table c09_def_which,
+                              Kotlin / Scala typealias, Go alias and enum) ++ suffix
+   c9m_lknown L pfx ws b f tp i   the class of the mention i at the type position tp of file f: those of c9m_known, then
+                              C09-multi-emitted-generic (NEW, a defect under a prefix: the name the mention must be spelled with
+                              is the name of a generic parameter of the owner - the printer decides "generic parameter or
+                              prefixed name" on the REWRITTEN name and prints it bare), then C09-kotlin-inline-generic (the
+                              single-file finding: a generic parameter inside a JvmInline value class gets the prefix)
+   c9m_lref_ok L ws b pfx r   a reference r of the file of crate b is (a) a MENTION: it stands for a mention (form, i) at a type
+                              position tp (same position kind) of a source file f of b and, when that mention is in no class
+                              and the specification has a spelling s for it, is spelled s (generic parameter, verbatim) or
+                              pfx ++ s (the emitted name of the denoted definition - of b or of another crate - with the prefix);
+                              or (b) the SEALED PARENT of an enum e of b: it stands in the declaration of e and - outside
+                              c09_parent_site_class, the single-file finding C09-<lang>-enum-parent - is spelled with that
+                              declaration's name; or (c) the HELPER of a struct variant of b, spelled - outside
+                              c09_inner_site_class, C09-<lang>-inner - with the name the helper is declared under; or (d) a
+                              TYPE ARGUMENT of the helper: a generic parameter of the enum, verbatim
+   c9m_ldef_ok L ws b pfx d   a definition d of the file of crate b is c9m_def_name of an entity of b that L declares
+   good_C09_multi L pfx ws b obs   the BOOLEAN judgement on the observation of a generated file (c09_observe): every definition
+                              c9m_ldef_okb, every reference c9m_lref_okb
+   c9m_lknown_ws L pfx ws     the first class of any mention / definition / parent / helper of the workspace *)
+
+(* the boolean judgement IS the Prop-level one *)
+Theorem C09_multi_good_reflect :
+  forall (L : lang) (pfx : str) (ws : c9m_ws) (b : str) (obs : c09_obs),
+    good_C09_multi L pfx ws b obs = true <->
+    (forall d, In d (c9_defs obs) -> c9m_ldef_ok L ws b pfx d) /\ (forall r, In r (c9_refs obs) -> c9m_lref_ok L ws b pfx r).
+Proof. exact Proofs.C09MultiLang.good_C09_multi_reflect. Qed.
+Print Assumptions C09_multi_good_reflect.
+
+Theorem C09_multi_ref_reflect :
+  forall (L : lang) (ws : c9m_ws) (b pfx : str) (r : c09_ref), c9m_lref_okb L ws b pfx r = true <-> c9m_lref_ok L ws b pfx r.
+Proof. exact Proofs.C09MultiLang.c9m_lref_reflect. Qed.
+Print Assumptions C09_multi_ref_reflect.
+
+Theorem C09_multi_def_reflect :
+  forall (L : lang) (ws : c9m_ws) (b pfx d : str), c9m_ldef_okb L ws b pfx d = true <-> c9m_ldef_ok L ws b pfx d.
+Proof. exact Proofs.C09MultiLang.c9m_ldef_reflect. Qed.
+Print Assumptions C09_multi_def_reflect.
+
+(* with the empty prefix and no class of its own the mention clause is c9m_ref_ok of the TypeScript theorem: outside the own-crate
+   class of definitions (c9m_def_class: a serde-renamed type declared under its Rust name, the findings C09-kotlin-alias,
+   C09-scala-alias, C09-go-alias, C09-go-enum) a type is declared under prefix ++ generated name *)
+Theorem C09_multi_def_name_wanted :
+  forall (L : lang) (pfx : str) (e : c09_entity), c9e_kind e <> C9KInner -> c9m_def_class L e = None ->
+    c9m_def_name L pfx e = (pfx ++ renamed (c9e_id e) ++ c9e_suffix e)%list.
+Proof. exact Proofs.C09MultiLang.c9m_def_name_wanted. Qed.
+Print Assumptions C09_multi_def_name_wanted.
+
+(* all languages, the language-independent half: if every declaration of the file generated for crate b from the reconciled
+   data pd' has the SHAPE c9l_decl_ok - declared under the table's name of an entity of pd'; every reference (a) the id i' a type
+   position of pd' mentions, verbatim if i' is a generic parameter of the owner, else prefix ++ i', (b) the parent, (c) the helper,
+   (d) a generic parameter passed to the helper, as the table says - then the file is good.  That the declarations HAVE this shape
+   is a fact about the back end alone, proved per language for EVERY program pd' *)
+Theorem C09_multi_shape_good :
+  forall (L : lang) (pfx : str) (ho : list imported -> list imported) (arrivals : list (str * parsed)) (b : str) (pd' : parsed) (fd : file_decls),
+    Proofs.C14Front.oracle_ok ho -> c9m_ids_wf arrivals = true -> In (b, pd') (multi_crates ho arrivals) ->
+    (forall d, In d (fd_decls fd) -> Proofs.C09MultiLang.c9l_decl_ok L pfx pd' d) ->
+    good_C09_multi L pfx arrivals b (c09_observe L fd) = true.
+Proof. exact Proofs.C09MultiLang.c9l_file_good. Qed.
+Print Assumptions C09_multi_shape_good.
+
+(* Kotlin in folder mode, every workspace, every iteration order, every configuration (prefix, package, type mappings): the file
+   kt_generate_multi writes for crate b is the header of the crate's package, the import lines and the rendered declarations of
+   kt_decls - those single-file mode observes (kt_file_decls) -; every definition and every reference of every declaration is
+   judged good (c9m_ldef_ok / c9m_lref_ok under kt_prefix cfg), and so is the observation of the file by the boolean judgement.
+   No hypothesis on classes: they are inside the judgement, mention by mention. *)
+Theorem C09_multi_Kotlin :
+  forall (uc : unicode) (cfg : kt_config) (ho : list imported -> list imported) (arrivals : list (str * parsed)),
+    Proofs.C14Front.oracle_ok ho -> c9m_ids_wf arrivals = true ->
+    forall (b : str) (pd' : parsed), In (b, pd') (multi_crates ho arrivals) ->
+    forall (c : str) (im : scoped) (text : str), kt_generate_multi uc cfg c im pd' = Ok text ->
+    exists (ds : list kt_decl) (fd : file_decls),
+      kt_decls uc cfg pd' = Ok ds /\ kt_file_decls uc cfg pd' = Ok fd /\ fd_decls fd = map kt_obs ds /\
+      text = (kt_render_header (Proofs.C12MultiStateless.kt_header_multi cfg c) ++ kt_write_imports cfg im ++ List.concat (map kt_render_decl ds))%list /\
+      Forall (fun d => (c09_is_def (kt_obs d) = true -> c9m_ldef_ok Kotlin arrivals b (kt_prefix cfg) (d_name (kt_obs d))) /\
+                       (forall r, In r (c09_decl_refs Kotlin (kt_obs d)) -> c9m_lref_ok Kotlin arrivals b (kt_prefix cfg) r)) ds /\
+      good_C09_multi Kotlin (kt_prefix cfg) arrivals b (c09_observe Kotlin fd) = true.
+Proof. exact Proofs.C09MultiKotlin.c9m_kt_file. Qed.
+Print Assumptions C09_multi_Kotlin.
+
+(* the back-end half for Kotlin alone: the declarations of ANY program have the shape *)
+Theorem C09_multi_Kotlin_shape :
+  forall (uc : unicode) (cfg : kt_config) (pd' : parsed) (ds : list kt_decl), kt_decls uc cfg pd' = Ok ds ->
+    forall d, In d ds -> Proofs.C09MultiLang.c9l_decl_ok Kotlin (kt_prefix cfg) pd' (kt_obs d).
+Proof. exact Proofs.C09MultiKotlin.ktl_decls. Qed.
+Print Assumptions C09_multi_Kotlin_shape.
+
+(* C09 composed with C14, Kotlin, the whole folder-mode pipeline (every workspace, --target-os list, configuration, prefix, all
+   iteration orders of the three hash containers): the file generated for crate c (a) is good - own types and imported ones are
+   spelled prefix ++ the name the defining file declares -, its import block being c14_kt_import_block of the import pairs;
+   (b) every cross-crate reference v that C14's specification finds in a source file of c and that lies in dom_C14 is among those
+   pairs, from its crate (rv_from v) under rv_generated_name v = c9m_emitted_name of the target; and (c) every pair (k, n) - printed
+   `import <package>.<k>.<prefix><n>` - names a type item of crate k that k's file, whatever its imports, declares under
+   kt_prefix ++ n (outside the open finding C09-kotlin-alias): spelled as in the defining file AND imported from it, prefix
+   included (since fix 26 of /repo). *)
+Theorem C09_multi_Kotlin_spelled_and_imported :
+  forall (uc : unicode), unicode_ok uc ->
+  forall (cfg : kt_config) (T ign : list str) (ho_file ho_crate : list imported -> list imported) (hc : crate_types -> crate_types)
+         (ws : list ws_entry) (arrivals : list (str * parsed)),
+    parse_workspace uc T ign ho_file ws = Ok arrivals ->
+    Proofs.C14Front.oracle_ok ho_file -> Proofs.C14Front.oracle_ok ho_crate -> Proofs.C14Front.oracle_ok hc ->
+    c9m_ids_wf arrivals = true ->
+    forall c pd, In (c, pd) (multi_crates ho_crate arrivals) ->
+    let imports := crate_imports hc (multi_crates ho_crate arrivals) c pd in
+    forall text, kt_generate_multi uc cfg c imports pd = Ok text ->
+      (exists ds fd,
+         kt_decls uc cfg pd = Ok ds /\ kt_file_decls uc cfg pd = Ok fd /\ fd_decls fd = map kt_obs ds /\
+         text = (kt_render_header (Proofs.C12MultiStateless.kt_header_multi cfg c) ++
+                 Spec.C14KotlinSpec.c14_kt_import_block (kt_package cfg) (kt_prefix cfg) (scoped_pairs imports) ++
+                 List.concat (map kt_render_decl ds))%list /\
+         good_C09_multi Kotlin (kt_prefix cfg) arrivals c (c09_observe Kotlin fd) = true) /\
+      (forall v, In v (Spec.C14Spec.judge_crate (Proofs.C14Main.c14_infos uc T ws) ign c (scoped_pairs imports)) ->
+         Spec.C14Spec.rv_dom v = true ->
+         Spec.C14Spec.rv_imported v = true /\
+         (c9m_two_names arrivals (Spec.C14Spec.rv_from v) (Spec.C14Spec.rv_name v) = false ->
+          Spec.C14Spec.rv_generated_name v = c9m_emitted_name arrivals (Spec.C14Spec.rv_from v) (Spec.C14Spec.rv_name v))) /\
+      (forall k n, In (k, n) (scoped_pairs imports) ->
+         k <> c /\
+         exists pdk, In (k, pdk) (multi_crates ho_crate arrivals) /\
+           (exists it, In it (items_of pdk) /\ Spec.C14Spec.is_type14 it = true /\ renamed (item_id it) = n) /\
+           forall imk textk, kt_generate_multi uc cfg k imk pdk = Ok textk ->
+             forall it, In it (items_of pdk) -> Spec.C14Spec.is_type14 it = true -> renamed (item_id it) = n ->
+               exists ds pre post,
+                 kt_decl_of cfg it = Ok ds /\
+                 textk = (kt_begin_file_multi cfg k ++ Spec.C14KotlinSpec.c14_kt_import_block (kt_package cfg) (kt_prefix cfg) (scoped_pairs imk) ++
+                          pre ++ List.concat (map kt_render_decl ds) ++ post)%list /\
+                 (Spec.C14KotlinSpec.c14_kt_alias_class it = false -> exists d, In d ds /\ d_name (kt_obs d) = (kt_prefix cfg ++ n)%list)).
+Proof. exact Proofs.C09MultiKotlinC14.c9m_kt_spelled_and_imported. Qed.
+Print Assumptions C09_multi_Kotlin_spelled_and_imported.
+
+(* non-vacuity and sensitivity, Kotlin: a (A1, A2 serde-renamed A2Renamed, A3) and my_crate (`use a::A2; use a::A1;`,
+   struct G<T> { t: T, a: A2, v: Vec<A1> }, tagged enum E<T> { V { x: A2, y: T }, W(A2), U }, type Al = Vec<A2>,
+   struct H { g: G<A2>, e: E<A1> }) - well-formed, in no class of c9m_lknown_ws under the prefix KP and under no prefix; the
+   file of my_crate has 5 definitions and 16 references and is good; respelling the references to a's A2 as KPA2 or A2Renamed,
+   the generic parameter T as KPT, or the helper KPEVInner as KPEV makes the judgement false *)
+Theorem C09_multi_Kotlin_nonvacuous :
+  Proofs.C09MultiLangWitness.wl_dom Kotlin (lit "KP") Proofs.C09MultiLangWitness.ws_rich = Some (true, None) /\
+  Proofs.C09MultiLangWitness.wl_dom Kotlin [] Proofs.C09MultiLangWitness.ws_rich = Some (true, None) /\
+  Proofs.C09MultiLangWitness.wl_kt (lit "KP") Proofs.C09MultiLangWitness.ws_rich Proofs.C14Witness.MY = Some (5, 16, true)%nat /\
+  Proofs.C09MultiLangWitness.wl_kt [] Proofs.C09MultiLangWitness.ws_rich Proofs.C14Witness.MY = Some (5, 16, true)%nat /\
+  Proofs.C09MultiLangWitness.wl_kt (lit "KP") Proofs.C09MultiLangWitness.ws_rich (lit "a") = Some (3, 0, true)%nat /\
+  Proofs.C09MultiLangWitness.wl_kt_respelled (lit "KP") Proofs.C09MultiLangWitness.ws_rich Proofs.C14Witness.MY (lit "KPA2Renamed") (lit "KPA2") = Some false /\
+  Proofs.C09MultiLangWitness.wl_kt_respelled (lit "KP") Proofs.C09MultiLangWitness.ws_rich Proofs.C14Witness.MY (lit "KPA2Renamed") (lit "A2Renamed") = Some false /\
+  Proofs.C09MultiLangWitness.wl_kt_respelled (lit "KP") Proofs.C09MultiLangWitness.ws_rich Proofs.C14Witness.MY (lit "T") (lit "KPT") = Some false /\
+  Proofs.C09MultiLangWitness.wl_kt_respelled (lit "KP") Proofs.C09MultiLangWitness.ws_rich Proofs.C14Witness.MY (lit "KPEVInner") (lit "KPEV") = Some false.
+Proof. exact Proofs.C09MultiLangWitness.kt_multi_nonvacuous. Qed.
+Print Assumptions C09_multi_Kotlin_nonvacuous.
+
+(* the class C09-multi-emitted-generic is needed, and is a defect of the unchanged tree under a prefix: crate a
+   `#[serde(rename = "X2")] struct A2`; my_crate `use a::A2; struct G<X2> { f: A2, g: X2 }` with --kotlin-prefix KP: the mention
+   of A2 denotes a's type, which a.kt declares - and my_crate.kt imports - as KPX2, and is printed `val f: X2` (exact text of
+   my_crate.kt); without a prefix the workspace is in no class *)
+Theorem C09_multi_emitted_generic_refuted :
+  Proofs.C09MultiLangWitness.wl_dom Kotlin (lit "KP") Proofs.C09MultiLangWitness.ws_emitted_generic = Some (true, Some "C09-multi-emitted-generic"%string) /\
+  Proofs.C09MultiLangWitness.wl_dom Kotlin [] Proofs.C09MultiLangWitness.ws_emitted_generic = Some (true, None) /\
+  Proofs.C09MultiWitness.wm_spec Proofs.C09MultiLangWitness.ws_emitted_generic Proofs.C14Witness.MY (lit "A2") = [(Some (lit "a"), Some (lit "X2"), None)] /\
+  Proofs.C09MultiWitness.wm_kt_text (lit "KP") Proofs.C09MultiLangWitness.ws_emitted_generic Proofs.C14Witness.MY =
+    Some (lit "package p.my_crate" ++ [10%N; 10%N] ++ lit "import kotlinx.serialization.Serializable" ++ [10%N] ++
+          lit "import kotlinx.serialization.SerialName" ++ [10%N; 10%N] ++ lit "import p.a.KPX2" ++ [10%N; 10%N] ++
+          lit "@Serializable" ++ [10%N] ++ lit "data class KPG<X2> (" ++ [10%N; 9%N] ++ lit "val f: X2," ++ [10%N; 9%N] ++ lit "val g: X2" ++ [10%N] ++
+          lit ")" ++ [10%N; 10%N])%list /\
+  match Proofs.C09MultiWitness.wm_kt_text (lit "KP") Proofs.C09MultiLangWitness.ws_emitted_generic (lit "a") with
+  | Some t => contains_sub (lit "data class KPX2 (") t | None => false end = true.
+Proof. exact Proofs.C09MultiLangWitness.emitted_generic_refuted. Qed.
+Print Assumptions C09_multi_emitted_generic_refuted.
+
+(* the same judgement on a list of declarations (a folder-mode file of the stateful back ends has no file_decls of its own:
+   c09_observe L fd = c9m_observe_decls L (fd_decls fd)) *)
+Theorem C09_multi_observe_decls :
+  forall (L : lang) (fd : file_decls), c09_observe L fd = c9m_observe_decls L (fd_decls fd).
+Proof. exact Proofs.C09MultiLang.c9l_observe_decls. Qed.
+Print Assumptions C09_multi_observe_decls.
+
+(* Swift in folder mode, every workspace, iteration order, configuration (prefix, type mappings, decorators, constraints),
+   EVERY state of the CodableVoid flag when crate b is reached: the file of crate b is begin_file's text and the rendered
+   declarations sw_multi_decls returns; every definition (structs, enums, typealiases, the ...Inner helper structs) and every
+   reference (stored-property types, case payloads, typealias targets, the helper and its type arguments) is judged good under
+   sw_prefix cfg, and so is the observation of the file by the boolean judgement *)
+Theorem C09_multi_Swift :
+  forall (uc : unicode) (cfg : sw_config) (ho : list imported -> list imported) (arrivals : list (str * parsed)),
+    Proofs.C14Front.oracle_ok ho -> c9m_ids_wf arrivals = true ->
+    forall (b : str) (pd' : parsed), In (b, pd') (multi_crates ho arrivals) ->
+    forall (st : sw_state) (text : str) (st' : sw_state), sw_generate_multi uc cfg st pd' = Ok (text, st') ->
+    exists ds : list sw_decl,
+      Proofs.C12MultiSwift.sw_multi_decls uc cfg st pd' = Ok (ds, st') /\
+      text = (sw_begin_file cfg ++ List.concat (map sw_render_decl ds))%list /\
+      Forall (fun d => (c09_is_def d = true -> c9m_ldef_ok Swift arrivals b (sw_prefix cfg) (d_name d)) /\
+                       (forall r, In r (c09_decl_refs Swift d) -> c9m_lref_ok Swift arrivals b (sw_prefix cfg) r)) (flat_map sw_obs ds) /\
+      good_C09_multi Swift (sw_prefix cfg) arrivals b (c9m_observe_decls Swift (flat_map sw_obs ds)) = true.
+Proof. exact Proofs.C09MultiSwift.c9m_sw_file. Qed.
+Print Assumptions C09_multi_Swift.
+
+Theorem C09_multi_Swift_shape :
+  forall (uc : unicode) (cfg : sw_config) (pd' : parsed) (st : sw_state) (ds : list sw_decl) (st' : sw_state),
+    Proofs.C12MultiSwift.sw_multi_decls uc cfg st pd' = Ok (ds, st') ->
+    forall o, In o (flat_map sw_obs ds) -> Proofs.C09MultiLang.c9l_decl_ok Swift (sw_prefix cfg) pd' o.
+Proof. exact Proofs.C09MultiSwift.swl_decls. Qed.
+Print Assumptions C09_multi_Swift_shape.
+
+(* Scala in folder mode (no prefix, no state: the file of a crate is sc_generate on the crate's data, whose declarations are
+   those of sc_file_decls - Props/C01.v C01_multi_file_decls_scala): every definition and every reference (case-class parameter
+   types, variant payloads, alias targets, the name after `extends`, the ...Inner helper class and its type arguments) of the
+   file of crate b is judged good, and so is the observation of the file *)
+Theorem C09_multi_Scala :
+  forall (uc : unicode) (cfg : sc_config) (ho : list imported -> list imported) (arrivals : list (str * parsed)),
+    Proofs.C14Front.oracle_ok ho -> c9m_ids_wf arrivals = true ->
+    forall (b : str) (pd' : parsed), In (b, pd') (multi_crates ho arrivals) ->
+    forall fd : file_decls, sc_file_decls uc cfg pd' = Ok fd ->
+      Forall (fun d => (c09_is_def d = true -> c9m_ldef_ok Scala arrivals b [] (d_name d)) /\
+                       (forall r, In r (c09_decl_refs Scala d) -> c9m_lref_ok Scala arrivals b [] r)) (fd_decls fd) /\
+      good_C09_multi Scala [] arrivals b (c09_observe Scala fd) = true.
+Proof. exact Proofs.C09MultiScala.c9m_sc_file. Qed.
+Print Assumptions C09_multi_Scala.
+
+Theorem C09_multi_Scala_shape :
+  forall (uc : unicode) (cfg : sc_config) (pd' : parsed) (objs pkgs : list sc_decl), sc_decls uc cfg pd' = Ok (objs, pkgs) ->
+    forall o, In o (flat_map sc_obs (objs ++ pkgs)) -> Proofs.C09MultiLang.c9l_decl_ok Scala [] pd' o.
+Proof. exact Proofs.C09MultiScala.scl_decls. Qed.
+Print Assumptions C09_multi_Scala_shape.
+
+(* Python in folder mode (no prefix), EVERY printer state when crate b is reached (it only collects imports, TypeVars and
+   translated types): the file of crate b is the header written from the state REACHED and the rendered declarations
+   py_multi_decls returns; every definition and every reference (attribute types, variant content types, alias targets, const
+   types, the ...Inner helper class) is judged good, and so is the observation of the file *)
+Theorem C09_multi_Python :
+  forall (uc : unicode) (cfg : py_config) (ho : list imported -> list imported) (arrivals : list (str * parsed)),
+    Proofs.C14Front.oracle_ok ho -> c9m_ids_wf arrivals = true ->
+    forall (b : str) (pd' : parsed), In (b, pd') (multi_crates ho arrivals) ->
+    forall (st : py_state) (text : str) (st' : py_state), py_generate_multi uc cfg st pd' = Ok (text, st') ->
+    exists ds : list py_decl,
+      Proofs.C12Multi.py_multi_decls uc cfg st pd' = Ok (ds, st') /\
+      text = (py_begin_file cfg ++ py_write_all_imports st' ++ py_write_custom_translations st' ++ List.concat (map py_render_decl ds))%list /\
+      Forall (fun d => (c09_is_def d = true -> c9m_ldef_ok Python arrivals b [] (d_name d)) /\
+                       (forall r, In r (c09_decl_refs Python d) -> c9m_lref_ok Python arrivals b [] r)) (flat_map py_obs ds) /\
+      good_C09_multi Python [] arrivals b (c9m_observe_decls Python (flat_map py_obs ds)) = true.
+Proof. exact Proofs.C09MultiPython.c9m_py_file. Qed.
+Print Assumptions C09_multi_Python.
+
+Theorem C09_multi_Python_shape :
+  forall (uc : unicode) (cfg : py_config) (pd' : parsed) (st : py_state) (ds : list py_decl) (st' : py_state),
+    Proofs.C12Multi.py_multi_decls uc cfg st pd' = Ok (ds, st') ->
+    forall o, In o (flat_map py_obs ds) -> Proofs.C09MultiLang.c9l_decl_ok Python [] pd' o.
+Proof. exact Proofs.C09MultiPython.pyl_decls. Qed.
+Print Assumptions C09_multi_Python_shape.
+
+(* non-vacuity and sensitivity, Swift (prefix OP) / Scala / Python on the workspace of C09_multi_Kotlin_nonvacuous: in no class;
+   the file of my_crate is good (5 definitions; 13 / 16 / 12 references) - the 4-tuples are (definitions, references, the
+   judgement, the judgement after respelling) - and respelling a's A2 by its Rust name, prefixing the generic parameter T (Swift),
+   misspelling the sealed parent (Scala) or the helper class (Python) makes the judgement false *)
+Theorem C09_multi_Swift_Scala_Python_nonvacuous :
+  Proofs.C09MultiLangWitness.wl_dom Swift (lit "OP") Proofs.C09MultiLangWitness.ws_rich = Some (true, None) /\
+  Proofs.C09MultiLangWitness.wl_dom Scala [] Proofs.C09MultiLangWitness.ws_rich = Some (true, None) /\
+  Proofs.C09MultiLangWitness.wl_dom Python [] Proofs.C09MultiLangWitness.ws_rich = Some (true, None) /\
+  Proofs.C09MultiLangWitness.wl_sw (lit "OP") Proofs.C09MultiLangWitness.ws_rich Proofs.C14Witness.MY (lit "OPA2Renamed") (lit "OPA2") = Some (5, 13, true, false)%nat /\
+  Proofs.C09MultiLangWitness.wl_sw (lit "OP") Proofs.C09MultiLangWitness.ws_rich Proofs.C14Witness.MY (lit "T") (lit "OPT") = Some (5, 13, true, false)%nat /\
+  Proofs.C09MultiLangWitness.wl_sc Proofs.C09MultiLangWitness.ws_rich Proofs.C14Witness.MY (lit "A2Renamed") (lit "A2") = Some (5, 16, true, false)%nat /\
+  Proofs.C09MultiLangWitness.wl_sc Proofs.C09MultiLangWitness.ws_rich Proofs.C14Witness.MY (lit "E") (lit "E2") = Some (5, 16, true, false)%nat /\
+  Proofs.C09MultiLangWitness.wl_py Proofs.C09MultiLangWitness.ws_rich Proofs.C14Witness.MY (lit "A2Renamed") (lit "A2") = Some (5, 12, true, false)%nat /\
+  Proofs.C09MultiLangWitness.wl_py Proofs.C09MultiLangWitness.ws_rich Proofs.C14Witness.MY (lit "EVInner") (lit "EV") = Some (5, 12, true, false)%nat.
+Proof. exact Proofs.C09MultiLangWitness.sw_sc_py_multi_nonvacuous. Qed.
+Print Assumptions C09_multi_Swift_Scala_Python_nonvacuous.
+
+(* the own-crate findings about definitions carry over to folder mode: crate a `#[serde(rename = "AlR")] type Al = u32`, my_crate
+   `use a::Al; struct B1 { f: Al }` is in class C09-kotlin-alias / C09-scala-alias / C09-go-alias (the alias is declared under
+   its Rust name while my_crate refers to AlR) and in no class for Swift and Python *)
+Theorem C09_multi_alias_classes :
+  Proofs.C09MultiLangWitness.wl_dom Kotlin [] Proofs.C09MultiLangWitness.ws_alias_renamed = Some (true, Some "C09-kotlin-alias"%string) /\
+  Proofs.C09MultiLangWitness.wl_dom Scala [] Proofs.C09MultiLangWitness.ws_alias_renamed = Some (true, Some "C09-scala-alias"%string) /\
+  Proofs.C09MultiLangWitness.wl_dom Go [] Proofs.C09MultiLangWitness.ws_alias_renamed = Some (true, Some "C09-go-alias"%string) /\
+  Proofs.C09MultiLangWitness.wl_dom Swift [] Proofs.C09MultiLangWitness.ws_alias_renamed = Some (true, None) /\
+  Proofs.C09MultiLangWitness.wl_dom Python [] Proofs.C09MultiLangWitness.ws_alias_renamed = Some (true, None).
+Proof. exact Proofs.C09MultiLangWitness.alias_renamed_classes. Qed.
+Print Assumptions C09_multi_alias_classes.
+
+(* Go in folder mode WITH AN EMPTY uppercase_acronyms LIST, every workspace, iteration order, package / type-mapping /
+   no_pointer_slice configuration, EVERY import set the Go value holds when crate b is reached: the file of crate b is the header,
+   the import block of the set REACHED and the rendered declarations go_multi_decls returns; every definition (structs under the
+   generated name; enums, aliases and ...Inner helper structs under the Rust name - the findings C09-go-enum / C09-go-alias are the
+   class c9m_def_class) and every reference (field types, variant content types, alias targets, const types, the helper) is judged
+   good, and so is the observation of the file.
+   PARTIAL in its acronym hypothesis only: under a non-empty acronym list definitions and field / payload types are printed
+   acronym-converted (single-file: C09_Go with the shape c09_go_shape of Proofs/C09_GoAcr.v and the three C09-go-acronym classes);
+   that shape and those classes are not carried over to the folder-mode judgement yet *)
+Theorem C09_multi_Go_partial :
+  forall (uc : unicode) (cfg : go_config) (ho : list imported -> list imported) (arrivals : list (str * parsed)),
+    go_uppercase_acronyms cfg = [] ->
+    Proofs.C14Front.oracle_ok ho -> c9m_ids_wf arrivals = true ->
+    forall (b : str) (pd' : parsed), In (b, pd') (multi_crates ho arrivals) ->
+    forall (st : go_state) (text : str) (st' : go_state), go_generate_multi uc cfg st pd' = Ok (text, st') ->
+    exists (ds : list go_decl) (header : str) (st1 : go_state),
+      Proofs.C12MultiGo.go_multi_decls uc cfg st pd' = Ok (ds, st') /\ go_begin_file cfg st = Ok (header, st1) /\
+      text = (header ++ go_write_all_imports st' ++ List.concat (map go_render_decl ds))%list /\
+      Forall (fun d => (c09_is_def d = true -> c9m_ldef_ok Go arrivals b [] (d_name d)) /\
+                       (forall r, In r (c09_decl_refs Go d) -> c9m_lref_ok Go arrivals b [] r)) (flat_map go_obs ds) /\
+      good_C09_multi Go [] arrivals b (c9m_observe_decls Go (flat_map go_obs ds)) = true.
+Proof. exact Proofs.C09MultiGo.c9m_go_file_no_acronyms. Qed.
+Print Assumptions C09_multi_Go_partial.
+
+Theorem C09_multi_Go_shape_partial :
+  forall (uc : unicode) (cfg : go_config), go_uppercase_acronyms cfg = [] ->
+  forall (pd' : parsed) (st : go_state) (ds : list go_decl) (st' : go_state),
+    Proofs.C12MultiGo.go_multi_decls uc cfg st pd' = Ok (ds, st') ->
+    forall o, In o (flat_map go_obs ds) -> Proofs.C09MultiLang.c9l_decl_ok Go [] pd' o.
+Proof. exact Proofs.C09MultiGo.gol_decls. Qed.
+Print Assumptions C09_multi_Go_shape_partial.
+
+(* non-vacuity and sensitivity, Go with an empty acronym list, the workspace of C09_multi_Kotlin_nonvacuous: in no class, the file
+   of my_crate is good (5 definitions, 12 references); a's A2 under its Rust name or a misnamed helper struct is rejected *)
+Theorem C09_multi_Go_nonvacuous :
+  Proofs.C09MultiLangWitness.wl_dom Go [] Proofs.C09MultiLangWitness.ws_rich = Some (true, None) /\
+  Proofs.C09MultiLangWitness.wl_go Proofs.C09MultiLangWitness.ws_rich Proofs.C14Witness.MY (lit "A2Renamed") (lit "A2") = Some (5, 12, true, false)%nat /\
+  Proofs.C09MultiLangWitness.wl_go Proofs.C09MultiLangWitness.ws_rich Proofs.C14Witness.MY (lit "EVInner") (lit "EV") = Some (5, 12, true, false)%nat.
+Proof. exact Proofs.C09MultiLangWitness.go_multi_nonvacuous. Qed.
+Print Assumptions C09_multi_Go_nonvacuous.
+
+(* a workspace in no class of c9m_lknown_ws (what the witnesses above evaluate): no mention of any source file, no definition, no
+   sealed parent, no helper of any crate is in a class - every conditional clause of c9m_lref_ok then applies: each reference IS
+   spelled as the specification demands *)
+Theorem C09_multi_no_class :
+  forall (L : lang) (pfx : str) (ws : c9m_ws), c9m_lknown_ws L pfx ws = None ->
+  forall b f, In (b, f) ws ->
+    (forall tp form i, In tp (c09_tposs f) -> In (form, i) (c09_type_ids (c9t_type tp)) -> c9m_lknown L pfx ws b f tp i = None) /\
+    (forall e, In e (c9m_entities ws b) ->
+       match c9e_kind e with
+       | C9KInner => c09_inner_site_class L e = None
+       | _ => c9m_def_class L e = None /\ c09_parent_site_class L e = None
+       end).
+Proof. exact Proofs.C09MultiLang.c9m_lknown_ws_none. Qed.
+Print Assumptions C09_multi_no_class.
